@@ -43,6 +43,17 @@ REGISTRY = dict(
     technique="machine-checked proof in Coq (nested induction on value trees, association-list reasoning) + regenerated-fragment interface lemmas + differential correspondence",
 )
 
+COV_TARGETS = {"stable_baselines3/common/save_util.py": None,
+               "stable_baselines3/common/base_class.py": ["BaseAlgorithm.save", "BaseAlgorithm.load", "BaseAlgorithm.set_parameters", "BaseAlgorithm.get_parameters",
+                                                          "BaseAlgorithm._excluded_save_params", "BaseAlgorithm._get_torch_save_params"],
+               "stable_baselines3/common/off_policy_algorithm.py": ["OffPolicyAlgorithm.save_replay_buffer", "OffPolicyAlgorithm.load_replay_buffer",
+                                                                    "OffPolicyAlgorithm._excluded_save_params", "OffPolicyAlgorithm._get_torch_save_params"],
+               "stable_baselines3/her/her_replay_buffer.py": ["HerReplayBuffer.__getstate__", "HerReplayBuffer.__setstate__", "HerReplayBuffer.set_env", "HerReplayBuffer.truncate_last_trajectory"],
+               "stable_baselines3/sac/sac.py": ["SAC._excluded_save_params", "SAC._get_torch_save_params"],
+               "stable_baselines3/td3/td3.py": ["TD3._excluded_save_params", "TD3._get_torch_save_params"],
+               "stable_baselines3/dqn/dqn.py": ["DQN._excluded_save_params", "DQN._get_torch_save_params"],
+               "stable_baselines3/common/on_policy_algorithm.py": ["OnPolicyAlgorithm._get_torch_save_params"]}
+
 HEADER = """From Coq Require Import List ZArith Bool String.
 From SB3V Require Import Model.JsonCodec Model.SaveLoad.
 Import ListNotations.
@@ -809,6 +820,9 @@ def tree_stats(spec, acc):
 def main():
     chk = Check("C09", groups=["saveload"])
     chk.build_props()
+    from harness import c18_branchcov
+
+    cov = c18_branchcov.maybe_start(COV_TARGETS)   # VERIF_BRANCHCOV=1: which lines of the anchored functions this run executes
     n_cases = int(os.environ.get("VERIF_NCASES", 0)) or (3000 if chk.tier == "quick" else 20000)
     cases = []
     corpus = os.path.join(common.VERIF, "corpus", "C09.jsonl")
@@ -868,6 +882,8 @@ def main():
         "attributes in the effective exclusion set ((exclude + _excluded_save_params()) - include, plus the top-level names of state dicts / torch variables) are not compared",
         "HER replay buffers are not saved on their own in the quick tier (the buffer needs its env; covered through the model only)",
     ]
+    if cov is not None:
+        chk.notes["branch_coverage"] = cov.report()
     return chk.finish()
 
 
